@@ -42,6 +42,10 @@ def check(ctx, report):
     report.rule('C15.R3', 'the values ignored as GREASE are exactly the RFC 8701 values')
     from .c10 import grease_classification
     grease_classification(ctx, report, 'C15.R3')
+    # the extension section of the fingerprint is taken from the extension block of the hello: the block is read whenever anything
+    # is left of the hello body (rule shared with C06.R13)
+    from .c06 import optional_trailers_read
+    optional_trailers_read(ctx, report, RULE='C15.R10', title='the extension block of a hello is read whenever anything is left of the body (JA3 extension section = types on the wire)')
     # the fingerprint does not change when the hello is composed and parsed again: what the hello composer writes for its list
     # valued attributes are the items of those attributes, nothing it makes up on the way (rule shared with C01.R2)
     report.rule('C15.R6', 'the client hello composer adds no item of its own to the lists it writes (the fingerprint survives compose / parse)')
